@@ -2803,3 +2803,40 @@ Q(name="e2_poll_transmit_close_not_congestion_blocked_slice", props=["C08", "C12
   pre=lambda c: and_(ule(c.inp(c.fn.debug["segment_size"][0], BV64), bv(65535)), ule(c.inp(c.fn.debug["num_datagrams"][0], BV64), bv(1 << 20))), post=cg_post, timeout=600,
   bounds="the same slice as e2_poll_transmit_new_datagram_gate_slice, from an arbitrary state: when a close is to be announced (`close` true) the slice is never left through the congestion-window or pacing exit (the two places that set `congestion_blocked`), whatever is queued besides - only the datagram limit of the call and anti-amplification may stop the closing packet",
   replay=("conn_close_under_congestion_native", lambda m: [dict(queued=1), dict(queued=0)]))
+
+
+# ------------------------------------------------------------------ C08: a connection closed by its very first packet gets its drain timer like any other
+def fpc_post(c, p):
+    st = p.p.state
+    if p.p.outcome != "return":
+        return "true"
+    calls = st.calls
+    pd = [i for i, x in enumerate(calls) if re.search(r"Connection::process_decrypted_packet$", x[0])]
+    if len(pd) != 1:
+        return "true"
+    after = calls[pd[0] + 1:]
+    # the connection state as the first packet left it: the store right before whatever is called next
+    snap = _Snap(st, after[0][3]) if after and after[0][3] is not None else st
+    sd = c.ex.read_key(snap, _conn(c, "state") + "#discr", I64).t
+    E = c.ex.enums["State"].index if "State" in c.ex.enums else c.ex.enums["connection::State"].index
+    closed_after = or_(eq(sd, bv(E("Closed"))), eq(sd, bv(E("Draining"))), eq(sd, bv(E("Drained"))))
+    handled = [x for x in after if re.search(r"Connection::set_close_timer$|Connection::close_common$", x[0])]
+    common = any(re.search(r"close_common$", x[0]) for x in handled)
+    timer = any(re.search(r"set_close_timer$", x[0]) for x in handled)
+    if common and timer:
+        return "true"
+    pdres = calls[pd[0]][2]
+    went_on = eq(c.ex.read_key(st, pdres + "#discr", I64).t, bv(0)) if not str(pdres).startswith("|") else "true"
+    if common:
+        # timers stopped but no drain timer armed: only right for a connection that is already drained
+        return or_(not_(went_on), not_(closed_after), eq(sd, bv(E("Drained"))))
+    # nothing was done on this path: then the first packet must not have closed the connection
+    return or_(not_(went_on), not_(closed_after))
+
+
+Q(name="e2_first_packet_close_gets_drain_timer", props=["C08"], func=r"connection/mod\.rs:\d+:1: \d+:16>::handle_first_packet$",
+  inline=[r"State::is_closed$", r"State::is_drained$"], allowed_panics=r".", ignore_untranslatable=r"fmt::rt::Argument|Transmute",
+  modifies=lambda c: {r"Connection::close_common$": ["*_1.%d" % c.field("connection/mod.rs", "Connection", "timers")]},      # close_common stops timers and nothing else
+  functions=["Connection::handle_first_packet"], pre=lambda c: eq(c.inp("*_1.%d#discr" % c.field("connection/mod.rs", "Connection", "state"), I64), bv(0)), post=fpc_post,
+  bounds="every outcome of processing the connection-creating Initial (process_decrypted_packet opaque: it may leave the connection in any state): when it succeeds and leaves the connection closed - the packet carried CONNECTION_CLOSE - close_common and set_close_timer run, as they do for every later packet in handle_packet, so that the connection drains within three probe timeouts instead of waiting for the idle timer",
+  replay=("conn_first_packet_close_native", lambda m: [dict(x=0)]))
